@@ -5,7 +5,8 @@ Spec: specs/Omml.tla (+ OmmlGen, OmmlTrace).
    universe that the transcribed process_element (reference design, Deviations = {}) is total,
    matches the documented pattern and is brace-balanced; sensitivity runs with each as-built
    deviation must fail.  The trees are dumped.
-2. spec -> code: every dumped tree is serialised to OMML XML (property elements interleaved, seeded),
+2. spec -> code: every dumped tree is serialised to OMML XML (property elements interleaved, run text as
+   m:t or -- a seeded third of the runs, all runs of some trees -- as w:t, seeded),
    converted twice by the real omml_to_latex, and embedded in generated DOCX paragraphs / PPTX
    shapes read by read_docx / read_pptx.  The output strings are tokenised into atoms.
 3. code -> spec: one trace per tree (Total, Shape, Balance, Again, Docx, Pptx) is validated by TLC
@@ -113,8 +114,17 @@ def node_xml(n, rng):
     k = n["k"]
     if k == "r":
         text = "".join(atom_char(a) for a in n["t"])
+        # CT_R of the math schema: the text of a math run is m:t or a WordprocessingML w:t (what Word
+        # writes for normal-text runs with w:rPr).  Every third run, and every run of some trees.
+        if getattr(rng, "all_wt", False) or rng.random() < 1 / 3:
+            mpr = rng.choice(["", '<m:rPr><m:nor/></m:rPr>'])
+            wpr = rng.choice(["<w:rPr/>", '<w:rPr><w:rFonts w:ascii="Cambria Math"/><w:i w:val="0"/></w:rPr>'])
+            if not text and rng.random() < 0.3:
+                return f"<m:r>{mpr}{wpr}<w:t/></m:r>"
+            return f'<m:r>{mpr}{wpr}<w:t xml:space="preserve">{escape(text)}</w:t></m:r>'
         pr = rng.choice(["", "", '<m:rPr><m:sty m:val="p"/></m:rPr>',
-                         '<w:rPr><w:rFonts w:ascii="Cambria Math"/><w:i/></w:rPr>'])
+                         '<w:rPr><w:rFonts w:ascii="Cambria Math"/><w:i/></w:rPr>',
+                         '<a:rPr lang="en-US" i="1"><a:latin typeface="Cambria Math"/></a:rPr>'])
         if not text and rng.random() < 0.3:
             return f"<m:r>{pr}<m:t/></m:r>"
         return f'<m:r>{pr}<m:t xml:space="preserve">{escape(text)}</m:t></m:r>'
@@ -147,6 +157,7 @@ def node_xml(n, rng):
 
 
 def tree_xml(tree, rng):
+    rng.all_wt = rng.random() < 0.15        # some trees: every run carries w:t
     return content_xml(tree, rng)
 
 
@@ -339,7 +350,7 @@ def _omath(xml, disp):
 def build_docx(items):
     """items: [(idx, xml, display)] -> bytes of a minimal DOCX, one paragraph per formula."""
     paras = "".join(f"<w:p><w:r><w:t>#{i}#</w:t></w:r>{_omath(x, d)}</w:p>" for i, x, d in items)
-    doc = (f'<?xml version="1.0" encoding="UTF-8"?><w:document xmlns:w="{W_NS}" xmlns:m="{M_NS}">'
+    doc = (f'<?xml version="1.0" encoding="UTF-8"?><w:document xmlns:w="{W_NS}" xmlns:m="{M_NS}" xmlns:a="{A_NS}">'
            f"<w:body>{paras}</w:body></w:document>")
     b = io.BytesIO()
     with zipfile.ZipFile(b, "w", zipfile.ZIP_DEFLATED) as z:
@@ -355,7 +366,9 @@ def build_docx(items):
 
 
 def build_pptx(items):
-    """one slide per formula; the formula sits in a text box shape (a14:m)."""
+    """one slide per formula; the formula sits in a text box shape (a14:m).  PowerPoint writes the
+    text of a math run as m:t only (run properties as a:rPr), so w:t runs are written as m:t here."""
+    items = [(i, x.replace("<w:t", "<m:t").replace("</w:t>", "</m:t>"), d) for i, x, d in items]
     b = io.BytesIO()
     n = len(items)
     with zipfile.ZipFile(b, "w", zipfile.ZIP_DEFLATED) as z:
@@ -406,7 +419,7 @@ def _worker(inp, out):
     known = set(job["known"])
     rng = random.Random(job["seed"])
     conv = mod.omml_to_latex
-    head = f'<m:oMath xmlns:m="{M_NS}" xmlns:w="{W_NS}">'
+    head = f'<m:oMath xmlns:m="{M_NS}" xmlns:w="{W_NS}" xmlns:a="{A_NS}">'
     cases = []
     for idx, c in enumerate(job["cases"]):
         xml = c.get("xml")
